@@ -63,6 +63,7 @@ Definition cmp_name : bytes := [x63; x6d; x70].
 Definition golden_cmp (st : state) (c : cmd_ref) (neg : bool) (args : list bytes) (entry : bytes) : Prop :=
   c = CBuiltin cmp_name /\ neg = false /\
   exists src g, args = [src; g] /\ is_std src = true
+                /\ clean (mkabs st g) = mkabs st g   (* addressed by a clean path: every relative name is *)
                 /\ assoc_get (s_files st) (mkabs st g) = Some entry.
 
 (* what a line of the class may be, in the state in which run 1 executes it; [seen] are
@@ -196,7 +197,7 @@ Definition line_class_b (cfg : config) (st : state) (line : bytes) (seen : list 
                   else if is_cmp_ref c && negb neg then
                     match args with
                     | [src; g] =>
-                        if is_std src then
+                        if is_std src && bytes_eqb (clean (mkabs st g)) (mkabs st g) then
                           match assoc_get (s_files st) (mkabs st g) with
                           | Some entry => if mem_b entry seen then None else Some (entry :: seen)
                           | None => None
